@@ -72,10 +72,10 @@ theorem d192_log_triple (hdiv : DivSpec) (d : Gen.decomposed192) :
   case inv2 | inv4 | inv6 => exact ⇓ x => match x with
     | .inl st => ⌜st.sig.toNat ≠ 0⌝
     | .inr st => ⌜st.sig.toNat ≠ 0⌝
-  case inv7 | inv9 | inv11 | inv13 => exact fun st => ⟨30 - st.2.2.2.toNat⟩
+  case inv7 | inv9 | inv11 | inv13 => exact fun st => ⟨40 - st.2.2.2.toNat⟩
   case inv8 | inv10 | inv12 | inv14 => exact ⇓ x => match x with
-    | .inl st => ⌜3 ≤ st.2.2.2.toNat ∧ st.2.2.2.toNat ≤ 27⌝
-    | .inr st => ⌜3 ≤ st.2.2.2.toNat ∧ st.2.2.2.toNat ≤ 27⌝
+    | .inl st => ⌜3 ≤ st.2.2.2.toNat ∧ st.2.2.2.toNat ≤ 35⌝
+    | .inr st => ⌜3 ≤ st.2.2.2.toNat ∧ st.2.2.2.toNat ≤ 35⌝
   all_goals (simp +zetaDelta at *)
   all_goals d192_prep
   all_goals d192_fin
